@@ -130,11 +130,13 @@ Fixpoint vlr (R : list Z) : Z :=
 
 (* characters the name loop of the prefix style just collects *)
 Definition nmc (c : Z) : bool :=
-  (0 <? c) && negb (c =? 125) && negb (c =? 123) && negb (c =? 61) && negb (c =? 35) && negb (c =? 10).
-Lemma nmc_spec c : nmc c = true <-> (0 < c /\ c <> 125 /\ c <> 123 /\ c <> 61 /\ c <> 35 /\ c <> 10).
+  (0 <? c) && (c <? 256) && negb (c =? 125) && negb (c =? 123) && negb (c =? 61) && negb (c =? 35) && negb (c =? 10).
+Lemma nmc_spec c : nmc c = true <-> (0 < c < 256 /\ c <> 125 /\ c <> 123 /\ c <> 61 /\ c <> 35 /\ c <> 10).
 Proof.
-  unfold nmc. rewrite !andb_true_iff, !negb_true_iff, Z.ltb_lt, !Z.eqb_neq. tauto.
+  unfold nmc. rewrite !andb_true_iff, !negb_true_iff, !Z.ltb_lt, !Z.eqb_neq. tauto.
 Qed.
+Lemma byte_of_small c : 0 <= c < 256 -> byte_of c = c.
+Proof. intros H. unfold byte_of. now apply Z.mod_small. Qed.
 
 Lemma set_valid_path s E c R L F K :
   pth s = mkPath E (c :: R) L F K true -> 0 <= L < VALID_MOD ->
@@ -148,7 +150,7 @@ Section Names.
 
   (* the name loop on name characters: they are appended, the valid length follows the last non-blank *)
   Lemma pre_scan : forall w c s d l E R F K,
-    Forall (fun x => nmc x = true) (c :: w) -> 0 < d ->
+    Forall (fun x => nmc x = true) (c :: w) -> 0 < d < 256 ->
     pth s = mkPath E (c :: R) (len (c :: R)) F K true -> (K = true \/ isspace c = false) ->
     valid s = vlr R -> len (c :: R) + len w < VALID_MOD ->
     exists s', pre_loop fd a c (w ++ d :: l) s = pre_loop fd a d l s' /\
@@ -162,38 +164,162 @@ Section Names.
       rewrite iscomment_fd. zb. cbv iota.
       destruct (isspace c) eqn:SP; cbn [negb]; zb.
       + destruct HK as [->|HK]; [|discriminate].
-        eexists. split; [reflexivity|]. autorewrite with pst. rewrite HP. cbn [path_addchar pbuf rpost pkeep negb].
-        split; [f_equal; rewrite !len_cons; cbn [rev app]; rewrite !len_cons; lia|].
-        split; [cbn [rev app vlr]; now rewrite SP|reflexivity].
+        eexists. split; [reflexivity|]. autorewrite with pst. rewrite HP. cbn [path_addchar pbuf rpost pkeep negb pelems plen pfirst]; rewrite ?byte_of_small by lia.
+        split; [f_equal; cbn [rev app]; rewrite ?len_cons; lia|].
+        split; [cbn [rev app vlr]; rewrite SP; assumption|reflexivity].
       + pose proof (len_nonneg R). rewrite len_cons in HL. rewrite len_nil in HL.
         destruct (set_valid_path (with_curr s PName) E c R (len (c :: R)) F K) as [P1 V1];
-          [now autorewrite with pst|rewrite len_cons; lia|].
+          [rewrite pth_with_curr; exact HP|rewrite len_cons; lia|].
         eexists. split; [reflexivity|]. autorewrite with pst in *. rewrite P1.
-        cbn [path_addchar pbuf rpost pkeep negb].
-        split; [f_equal; rewrite !len_cons; cbn [rev app]; rewrite !len_cons; lia|].
-        split; [cbn [rev app vlr]; rewrite SP; exact V1|reflexivity].
+        cbn [path_addchar pbuf rpost pkeep negb pelems plen pfirst]; rewrite ?byte_of_small by lia.
+        split; [f_equal; cbn [rev app]; rewrite ?len_cons; lia|].
+        split; [cbn [rev app vlr]; rewrite SP, ?len_cons; exact V1|reflexivity].
     - inversion FA as [|? ? Hc FA']; subst. apply nmc_spec in Hc.
       inversion FA' as [|? ? Hx _]; subst. apply nmc_spec in Hx as Hx'.
       cbn [app]. rewrite pre_loop_eq. unfold pre_body. cbn [fd fmt_default send sstart ostart assign oend].
       rewrite iscomment_fd. zb. cbv iota.
-      rewrite len_cons in HL. pose proof (len_nonneg w). pose proof (len_nonneg R).
+      rewrite !len_cons in HL. pose proof (len_nonneg w). pose proof (len_nonneg R).
       destruct (isspace c) eqn:SP; cbn [negb]; zb.
       + destruct HK as [->|HK]; [|discriminate].
         edestruct (IH x (addch (tick (with_curr s PName) x) x) d l E (c :: R) F true) as (s' & E1 & P1 & V1 & C1);
           [exact FA'|exact PD| | | | |].
-        * autorewrite with pst. rewrite HP. cbn [path_addchar pbuf rpost pkeep negb]. f_equal. rewrite !len_cons. lia.
+        * autorewrite with pst. rewrite HP. cbn [path_addchar pbuf rpost pkeep negb pelems plen pfirst]; rewrite ?byte_of_small by lia. f_equal; rewrite ?len_cons; lia.
         * now left.
         * autorewrite with pst. cbn [vlr]. now rewrite SP.
-        * rewrite !len_cons in *. lia.
+        * rewrite ?len_cons in *. lia.
         * exists s'. split; [exact E1|]. cbn [rev]. rewrite <- !app_assoc. cbn [app]. auto.
       + destruct (set_valid_path (with_curr s PName) E c R (len (c :: R)) F K) as [P0 V0];
-          [now autorewrite with pst|rewrite len_cons; lia|].
+          [rewrite pth_with_curr; exact HP|rewrite len_cons; lia|].
         edestruct (IH x (addch (tick (set_valid (with_curr s PName)) x) x) d l E (c :: R) F true) as (s' & E1 & P1 & V1 & C1);
           [exact FA'|exact PD| | | | |].
-        * autorewrite with pst in *. rewrite P0. cbn [path_addchar pbuf rpost pkeep negb]. f_equal. rewrite !len_cons. lia.
+        * autorewrite with pst in *. rewrite P0. cbn [path_addchar pbuf rpost pkeep negb pelems plen pfirst]; rewrite ?byte_of_small by lia. f_equal; rewrite ?len_cons; lia.
         * now left.
-        * autorewrite with pst in *. cbn [vlr]. rewrite SP. exact V0.
-        * rewrite !len_cons in *. lia.
+        * autorewrite with pst in *. cbn [vlr]. rewrite SP, ?len_cons. exact V0.
+        * rewrite ?len_cons in *. lia.
         * exists s'. split; [exact E1|]. cbn [rev]. rewrite <- !app_assoc. cbn [app]. auto.
   Qed.
 End Names.
+
+(* ---------------------------------------------------------------- values *)
+Lemma hspace_spec c : hspace c = true <-> (c = 9 \/ 11 <= c <= 13 \/ c = 32).
+Proof.
+  unfold hspace. rewrite andb_true_iff, negb_true_iff, Z.eqb_neq, isspace_spec. lia.
+Qed.
+
+Lemma data_loop_cons f c l s m la :
+  0 < c -> data_loop f (c :: l) s m la =
+  match data_body f c (addch (tick s c) c) m la with
+  | Cont s2 m2 l2 => data_loop f l s2 m2 l2
+  | Brk s2 => (c, l, s2)
+  | BrkEndline s2 => let '(_, r2, s3) := endline l s2 in (c, r2, s3)
+  end.
+Proof. intros P. cbn [data_loop]. zb. reflexivity. Qed.
+
+(* blank state: at most one (overwritable) byte of post data *)
+Definition small (R : list Z) : Prop := R = [] \/ exists x, R = [x].
+
+Lemma addchar_small E R F c : small R -> 0 <= c < 256 ->
+  path_addchar (mkPath E R (len R) F false true) c = mkPath E [c] (len [c]) F false true.
+Proof.
+  intros [->|[x ->]] B; cbn [path_addchar pbuf rpost pkeep negb pelems plen pfirst]; rewrite byte_of_small by lia; reflexivity.
+Qed.
+
+Lemma addchar_keep E R F c : 0 <= c < 256 ->
+  path_addchar (mkPath E R (len R) F true true) c = mkPath E (c :: R) (len (c :: R)) F true true.
+Proof.
+  intros B. destruct R; cbn [path_addchar pbuf rpost pkeep negb pelems plen pfirst]; rewrite byte_of_small by lia;
+    f_equal; rewrite ?len_cons, ?len_nil; lia.
+Qed.
+
+(* leading blanks of a value are overwritten one by the other *)
+Lemma data_lead_blanks : forall w s l la E F R0,
+  Forall (fun c => hspace c = true) w -> pth s = mkPath E R0 (len R0) F false true -> small R0 ->
+  exists s' la' R1, data_loop fd (w ++ l) s 0 la = data_loop fd l s' 0 la' /\
+    pth s' = mkPath E R1 (len R1) F false true /\ small R1 /\ valid s' = valid s /\ pcurr s' = pcurr s /\
+    (w <> [] -> isspace la' = true) /\ (w = [] -> la' = la).
+Proof.
+  induction w as [|b w IH]; intros s l la E F R0 FA HP SM.
+  - exists s, la, R0. cbn [app]. repeat split; auto; intros X; now destruct X.
+  - inversion FA as [|? ? Hb FA']; subst. apply hspace_spec in Hb as Hb'.
+    assert (SPB : isspace b = true) by (apply isspace_spec; lia).
+    cbn [app]. rewrite data_loop_cons by lia.
+    unfold data_body. change (0 =? 0) with true. cbn [negb]. rewrite isescape_fd, iscomment_fd.
+    cbn [fd fmt_default oend]. zb. cbn [orb andb]. rewrite SPB. cbn [negb].
+    destruct (IH (addch (tick s b) b) l b E F [b]) as (s' & la' & R1 & E1 & P1 & S1 & V1 & C1 & L1 & L2); auto.
+    + autorewrite with pst. rewrite HP. apply addchar_small; [assumption|lia].
+    + right. eexists; reflexivity.
+    + exists s', la', R1. autorewrite with pst in V1, C1. repeat split; auto.
+      * intros _. destruct w; [rewrite L2; auto|apply L1; discriminate].
+      * discriminate.
+Qed.
+
+(* blanks behind collected data are appended, the valid length stays *)
+Lemma data_hblanks : forall w s l la E F R,
+  Forall (fun c => hspace c = true) w -> pth s = mkPath E R (len R) F true true ->
+  exists s' la', data_loop fd (w ++ l) s 0 la = data_loop fd l s' 0 la' /\
+    pth s' = mkPath E (rev w ++ R) (len (rev w ++ R)) F true true /\ valid s' = valid s /\ pcurr s' = pcurr s /\
+    (w <> [] -> isspace la' = true) /\ (w = [] -> la' = la).
+Proof.
+  induction w as [|b w IH]; intros s l la E F R FA HP.
+  - exists s, la. cbn [app rev]. repeat split; auto; intros X; now destruct X.
+  - inversion FA as [|? ? Hb FA']; subst. apply hspace_spec in Hb as Hb'.
+    assert (SPB : isspace b = true) by (apply isspace_spec; lia).
+    cbn [app]. rewrite data_loop_cons by lia.
+    unfold data_body. change (0 =? 0) with true. cbn [negb]. rewrite isescape_fd, iscomment_fd.
+    cbn [fd fmt_default oend]. zb. cbn [orb andb]. rewrite SPB. cbn [negb].
+    destruct (IH (addch (tick s b) b) l b E F (b :: R)) as (s' & la' & E1 & P1 & V1 & C1 & L1 & L2); auto.
+    + rewrite pth_addch, pth_tick, HP. apply addchar_keep. lia.
+    + exists s', la'. autorewrite with pst in V1, C1. cbn [rev]. rewrite <- app_assoc. cbn [app].
+      repeat split; auto.
+      * intros _. destruct w; [rewrite L2; auto|apply L1; discriminate].
+      * discriminate.
+Qed.
+
+Lemma last_cons {A} (c : A) w d : last (c :: w) d = last w c.
+Proof.
+  revert c d. induction w as [|x w IH]; intros c d; [reflexivity|].
+  change (last (c :: x :: w) d) with (last (x :: w) d). rewrite IH. symmetry. apply IH.
+Qed.
+
+(* characters of a plain value *)
+Lemma plain_char_spec c : plain_char c = true <-> (1 <= c <= 255 /\ c <> 10 /\ c <> 34 /\ c <> 39).
+Proof.
+  unfold plain_char, byteb. rewrite !andb_true_iff, !negb_true_iff, !Z.leb_le, !Z.eqb_neq. tauto.
+Qed.
+
+(* no comment character directly behind white space, [la] being the character in front *)
+Fixpoint nwh (la : Z) (w : list Z) : bool :=
+  match w with [] => true | c :: r => negb (isspace la && (c =? 35)) && nwh c r end.
+
+Lemma data_plain_loop : forall w s l la E F R,
+  Forall (fun c => plain_char c = true) w -> nwh la w = true ->
+  pth s = mkPath E R (len R) F true true -> valid s = vlr R -> len R + len w < VALID_MOD ->
+  exists s', data_loop fd (w ++ l) s 0 la = data_loop fd l s' 0 (last w la) /\
+    pth s' = mkPath E (rev w ++ R) (len (rev w ++ R)) F true true /\ valid s' = vlr (rev w ++ R) /\ pcurr s' = pcurr s.
+Proof.
+  induction w as [|c w IH]; intros s l la E F R FA NW HP HV HL.
+  - exists s. cbn [app rev last]. auto.
+  - inversion FA as [|? ? Hc FA']; subst. apply plain_char_spec in Hc as Hc'.
+    cbn [nwh] in NW. apply andb_true_iff in NW. destruct NW as [NW1 NW2].
+    rewrite len_cons in HL. pose proof (len_nonneg w). pose proof (len_nonneg R).
+    cbn [app]. rewrite data_loop_cons by lia.
+    unfold data_body. change (0 =? 0) with true. cbn [negb]. rewrite isescape_fd, iscomment_fd.
+    cbn [fd fmt_default oend]. zb. cbn [orb]. change (0 =? 0) with true. cbn [andb].
+    assert (CM : (c =? 35) && isspace la = false).
+    { apply negb_true_iff in NW1. rewrite andb_comm. exact NW1. }
+    rewrite CM.
+    assert (PA : pth (addch (tick s c) c) = mkPath E (c :: R) (len (c :: R)) F true true).
+    { rewrite pth_addch, pth_tick, HP. apply addchar_keep. lia. }
+    destruct (isspace c) eqn:SP; cbn [negb].
+    + destruct (IH (addch (tick s c) c) l c E F (c :: R)) as (s' & E1 & P1 & V1 & C1); auto.
+      * autorewrite with pst. cbn [vlr]. now rewrite SP.
+      * rewrite len_cons. lia.
+      * exists s'. autorewrite with pst in C1. cbn [rev]. rewrite <- !app_assoc. cbn [app].
+        rewrite last_cons. auto.
+    + destruct (set_valid_path (addch (tick s c) c) E c R (len (c :: R)) F true PA) as [P0 V0]; [rewrite len_cons; lia|].
+      destruct (IH (set_valid (addch (tick s c) c)) l c E F (c :: R)) as (s' & E1 & P1 & V1 & C1); auto.
+      * cbn [vlr]. now rewrite SP.
+      * rewrite len_cons. lia.
+      * exists s'. autorewrite with pst in C1. cbn [rev]. rewrite <- !app_assoc. cbn [app].
+        rewrite last_cons. auto.
+Qed.
